@@ -1,0 +1,14 @@
+//go:build verif
+
+package unifier
+
+import "time"
+
+// Verification hook (build tag "verif" only): simulated time for the unifier breaker.
+
+// VerifShift makes the stored last-failure time look d older.
+func (cb *CircuitBreaker) VerifShift(d time.Duration) {
+	if v := cb.lastFailureTime.Load(); v != 0 {
+		cb.lastFailureTime.Store(v - int64(d))
+	}
+}
